@@ -71,20 +71,23 @@ def mixSumCheck : Bool :=
 
 theorem mixSumCheck_true : mixSumCheck = true := by decide +kernel
 
-/-- prefetch mode on the same data: the counter of sketch A (15, counted at scaled 2) is stale once the
-counter's resolution is 4, `peek` finds containment 0 and its `assert cont` fails -/
-def mixAssertCheck : Bool :=
+/-- prefetch mode on the same data (regression for finding D25, fixed upstream): the count of sketch A (15,
+counted at scaled 2) is stale once the counter's resolution is 4.  Before the fix `peek` computed containment 0
+for it and its `assert cont` failed; the patched `peek` re-counts the entry (0 at scaled 4: every hash of A is
+above the scaled-4 bound), drops it, and reports B: one round, `(|U|, orig_query_len)` = (3, 5) -/
+def mixNoAssertCheck : Bool :=
   match counterGather lsOps [mixA, mixB] mixQuery 0 with
   | .ok c =>
     (match GD.init lsOps mixQuery [.cg c] 0 false none none with
      | .ok g =>
-       (match g.next lsOps ratOps with
-        | .error .assertion => true
-        | _ => false)
+       (match g.run lsOps ratOps 5 with
+        | .ok (_, rs) =>
+          decide (rs.map (fun r => (r.name, r.isectCur.length, r.queryNHashes)) = [(2, 3, 5)])
+        | .error _ => false)
      | .error _ => false)
   | .error _ => false
 
-theorem mixAssertCheck_true : mixAssertCheck = true := by decide +kernel
+theorem mixNoAssertCheck_true : mixNoAssertCheck = true := by decide +kernel
 
 /-! ### non-vacuity: a three-round run with abundances, database at the query's scaled -/
 
